@@ -3,13 +3,35 @@
 Decided (structural clauses, narrow):
   R45.1 escape pairing: every substitution quote() applies to the value (`str.replace(a, b)`) has an inverse in
         unquote().   (Today: '"' -> r'\\x22' has none - known finding F-C45, the FIXME in the test-suite.)
-  R45.2 the three character tables agree: the characters that make quote() add quotes == the lexer's whitespace
-        class + both quote characters == the characters excluded from the bare-word class; so a string quote()
-        leaves bare is one bare token, and everything else is quoted.
+  R45.2 the character tables agree: the lexer's whitespace class + both quote characters == the characters NOT in the
+        bare-word class (partition), and every one of them makes quote() add quotes; so a string quote() leaves bare is one
+        bare token.  (Quoting MORE than the lexer needs is harmless and only noted.)  The lexer's classes are taken from a *model of the
+        token alternatives* of ``command_lexer.expr`` (ZeroOrMore(A | B | ...).leave_whitespace(); each alternative a
+        pyparsing Word(chars) / CharsNotIn(chars) / Regex(pattern) - literal or named at module level): the whitespace,
+        bare-word and quoted alternatives are recognised by what they match (" ", "a", a quoted string), and their character
+        sets are read off by matching every candidate character (0..127, Latin-1 and Unicode spaces, letters), so a class
+        written as a character list and the same class written as a regex are the same to the rule, while a class that
+        became wider than quote()'s trigger set (the regex whitespace category instead of the four characters space/CR/LF/TAB: seed C45a) is a violation.
   R45.3 what quote() emits is one lexer token: "[^"]*" and '[^']*' are included in the language of the lexer's
         quoted-string regex (language inclusion on the parsed regex); unquote() strips exactly one matching quote pair.
-  R45.4 CommandManager.execute drops only Space tokens and unquotes every other token.
-Not decided: equality for all strings at run time (pyparsing's tokenisation is library behaviour).
+  R45.4 CommandManager.execute drops only Space tokens and unquotes every other token exactly once (execute interpreted from its AST
+        on a token list holding every token type and quote shape; parse_partial / call_strings replaced by stubs).
+  R45.5 (E3, pyint) end to end, from the command line to the argument type: ``CommandManager.execute`` -> ``parse_partial`` ->
+        ``call_strings`` -> ``Command.call`` -> ``prepare_args`` -> ``parsearg`` are interpreted from their AST on the line
+        ``<cmd> quote(v) <tail>`` (the lexer replaced by the token model above, ``inspect.Signature.bind`` real, the argument type an
+        identity stub that records the string it is asked to parse).  For every representative value v the strings reaching the
+        argument types must be exactly [v, tail] - clause "any string, quoted with the console's quoting rule and placed in a command
+        line, is passed to the executed command unchanged, and arguments are split exactly at unquoted whitespace".  Representatives:
+        plain / inner whitespace / leading+trailing whitespace / one kind of quote inside / values that themselves begin and end with
+        a quote character / empty / backslashes / unicode / ``a<c>b`` for every candidate character c  (obligation A), and values made
+        only of characters that ``str.isspace`` accepts but quote() leaves bare (obligation B).  A second quote-stripping anywhere
+        behind execute (seed C45b), a strip()/normalisation of the argument, a token class or Space test that is wider than what
+        quote() protects all change what the command receives.
+        (Obligation B found the genuine defect F-C45ws - parse_partial typed such tokens Space via str.isspace and execute dropped them;
+        fixed in /repo 98c12efba, repro findings/F-C45ws/repro.py, mutant F-C45ws-reverted.)
+Not decided: equality for all strings at run time (pyparsing's tokenisation is library behaviour: ZeroOrMore / MatchFirst /
+Word / CharsNotIn / Regex are modelled as documented, `re` is trusted); what an argument *type* does with the string it receives
+(``_StrType.parse`` interprets backslash escapes by design); values containing both quote characters (R45.1, known finding).
 """
 
 from __future__ import annotations
@@ -28,7 +50,7 @@ from ..selftest import Mutant
 PROP = "C45"
 REG = {
     "strength": "narrow",
-    "technique": "escape-pair agreement, character-table agreement, regex language inclusion",
+    "technique": "escape-pair agreement, character-table agreement over a model of the lexer's token classes, regex language inclusion, AST interpretation of the execute path",
     "claim": "quote()'s substitutions are inverted by unquote() (one known finding), the quoting trigger set equals the lexer's separator sets, "
     "quote()'s output forms are single lexer tokens, execute() drops only whitespace tokens.",
     "note": "pyparsing (Regex, Word, CharsNotIn, ZeroOrMore) is trusted.",
@@ -44,11 +66,119 @@ def _str_const(node):
     return None
 
 
+class _Alt:
+    """One alternative of the lexer's MatchFirst: ``match(text, pos)`` -> end position of the token or None (pyparsing semantics)."""
+
+    def __init__(self, kind, label, node, match, pattern=None, flags=0):
+        self.kind, self.label, self.node, self.match, self.pattern, self.flags = kind, label, node, match, pattern, flags
+
+
+def _run_in(chars, negate):
+    def match(text, pos):
+        end = pos
+        while end < len(text) and ((text[end] in chars) != negate):
+            end += 1
+        return end if end > pos else None
+
+    return match
+
+
+def _lexer_model(ctx, mod):
+    """The token alternatives of ``command_lexer.expr`` in MatchFirst order."""
+    vals = mod.assigns("expr")
+    ctx.require(bool(vals), "command_lexer.expr vanished")
+    top = vals[-1]
+    rep = [c for c in ast.walk(top) if isinstance(c, ast.Call) and last_attr(c.func) in ("ZeroOrMore", "OneOrMore")]
+    ctx.require(len(rep) == 1 and len(rep[0].args) == 1 and not rep[0].keywords, "lexer expr: not one ZeroOrMore(<alternatives>)")
+    ctx.require(any(isinstance(c, ast.Call) and last_attr(c.func) in ("leave_whitespace", "leaveWhitespace") for c in ast.walk(top)),
+                "lexer expr: no leave_whitespace() - whitespace skipping of pyparsing is not modelled")
+
+    def resolve(n, depth=0):
+        if isinstance(n, ast.Name) and mod.assigns(n.id) and depth < 4:
+            ctx.require(len(mod.assigns(n.id)) == 1, f"lexer: {n.id} is assigned more than once")
+            return resolve(mod.assigns(n.id)[0], depth + 1)
+        return n
+
+    def flat(n):
+        r = resolve(n)
+        if isinstance(r, ast.BinOp) and isinstance(r.op, ast.BitOr):
+            return flat(r.left) + flat(r.right)
+        if isinstance(r, ast.Call) and last_attr(r.func) == "MatchFirst" and len(r.args) == 1 and isinstance(r.args[0], (ast.List, ast.Tuple)):
+            return [x for e in r.args[0].elts for x in flat(e)]
+        return [(n, r)]
+
+    def text_of(node, what):
+        r = resolve(node)
+        v = _str_const(r)
+        ctx.require(v is not None, f"lexer: {what} is not a string literal: {norm(node)}")
+        return v
+
+    def flags_of(nodes):
+        fl = 0
+        for a in nodes:
+            for x in ast.walk(a):
+                if isinstance(x, ast.Attribute) and isinstance(x.value, ast.Name) and x.value.id == "re" and x.attr.isupper():
+                    fl |= int(getattr(re, x.attr, 0))
+                elif isinstance(x, ast.Constant) and isinstance(x.value, int) and not isinstance(x.value, bool):
+                    fl |= x.value
+        return fl
+
+    alts = []
+    for ref, call in flat(rep[0].args[0]):
+        label = ref.id if isinstance(ref, ast.Name) else norm(ref)[:60]
+        ctx.require(isinstance(call, ast.Call), f"lexer alternative not modelled: {norm(call)[:80]}")
+        kind = last_attr(call.func)
+        if kind in ("Word", "CharsNotIn"):
+            ctx.require(len(call.args) == 1 and not call.keywords, f"lexer: {kind} with more than the character set is not modelled: {norm(call)[:80]}")
+            chars = text_of(call.args[0], f"{kind} character set")
+            alts.append(_Alt(kind, label, call, _run_in(chars, kind == "CharsNotIn")))
+        elif kind == "Regex":
+            ctx.require(len(call.args) >= 1 and all(k.arg == "flags" for k in call.keywords), f"lexer: Regex arguments not modelled: {norm(call)[:80]}")
+            a0 = resolve(call.args[0])
+            if isinstance(a0, ast.Call) and norm(a0.func) == "re.compile":
+                ctx.require(len(a0.args) >= 1, "lexer: re.compile() without pattern")
+                pat, fl = text_of(a0.args[0], "regex pattern"), flags_of(list(a0.args[1:]) + [k.value for k in a0.keywords])
+            else:
+                pat, fl = text_of(a0, "regex pattern"), flags_of(list(call.args[1:]) + [k.value for k in call.keywords])
+            try:
+                cre = re.compile(pat, fl)
+            except re.error as e:
+                raise AnalysisError(f"lexer: regex of {label} does not compile: {e}")
+
+            def match(text, pos, cre=cre):
+                mm = cre.match(text, pos)
+                return mm.end() if mm else None
+
+            alts.append(_Alt("Regex", label, call, match, pat, fl))
+        else:
+            raise AnalysisError(f"lexer alternative not modelled: {norm(call)[:80]}")
+    ctx.require(len(alts) >= 3, f"lexer: only {len(alts)} token alternatives found")
+    return alts
+
+
+def _tokens(alts, text):
+    """pyparsing ZeroOrMore(MatchFirst(alts)).leave_whitespace().parse_string(text, parse_all=True): list of tokens, None = ParseException."""
+    out, pos = [], 0
+    while pos < len(text):
+        for a in alts:
+            end = a.match(text, pos)
+            if end is not None:
+                if end == pos:
+                    raise AnalysisError(f"lexer: alternative {a.label} matches the empty string (repetition of empty tokens is not modelled)")
+                out.append(text[pos:end])
+                pos = end
+                break
+        else:
+            return None
+    return out
+
+
 def check(ctx):
     ctx.rule("R45.1", "every replace() in quote has an inverse in unquote")
     ctx.rule("R45.2", "quote trigger characters == lexer whitespace + quotes == CharsNotIn set")
     ctx.rule("R45.3", "quote()'s output forms are single quoted-string tokens; unquote strips one matching pair")
     ctx.rule("R45.4", "execute drops only Space tokens and unquotes the rest")
+    ctx.rule("R45.5", "interpreted path execute -> parse_partial -> Command.call -> parsearg hands the argument types exactly [v, tail] for the line `cmd quote(v) tail`")
     m = ctx.model
     q = ctx.func(LEX, "quote")
     u = ctx.func(LEX, "unquote")
@@ -88,39 +218,44 @@ def check(ctx):
         except Raised as r:
             return f"<raises {r.name}>"
 
-    # the lexer's character classes (literals or module-level string constants)
-    def str_arg(call):
-        a0 = call.args[0] if call.args else None
-        v = _str_const(a0)
-        if v is None and isinstance(a0, ast.Name) and mod.assigns(a0.id):
-            v = _str_const(mod.assigns(a0.id)[-1])
-        return v
-
-    words = [c for v in mod.assigns("expr") for c in ast.walk(v) if isinstance(c, ast.Call) and last_attr(c.func) == "Word"]
-    notin = [c for v in mod.assigns("expr") for c in ast.walk(v) if isinstance(c, ast.Call) and last_attr(c.func) == "CharsNotIn"]
-    ctx.require(len(words) == 1 and len(notin) == 1, "lexer expr: Word(...) / CharsNotIn(...) alternatives not found")
-    ws, excl = str_arg(words[0]), str_arg(notin[0])
-    ctx.require(ws is not None and excl is not None, "lexer expr: non-literal character classes")
+    # the lexer's token classes, recognised by what they match (model of the pyparsing expression)
+    alts = _lexer_model(ctx, mod)
+    quoted_alts = [a for a in alts if a.match('"x"', 0) == 3 and a.match("'x'", 0) == 3]
+    ws_alts = [a for a in alts if a not in quoted_alts and a.match(" ", 0) == 1]
+    bare_alts = [a for a in alts if a not in quoted_alts and a.match("a", 0) == 1]
+    ctx.require(len(quoted_alts) == 1 and len(ws_alts) == 1 and len(bare_alts) == 1 and ws_alts[0] is not bare_alts[0] and len(alts) == 3,
+                f"lexer: expected one quoted-string, one whitespace and one bare-word alternative, found {[(a.label, a.kind) for a in alts]}")
+    quoted_alt, ws_alt, bare_alt = quoted_alts[0], ws_alts[0], bare_alts[0]
+    candidates = [chr(i) for i in range(0, 128)] + ["\u0085", "\u00a0", "\u2003", "\u2028", "\u3000", "\u200b", "\u00e9", "\u4e2d"]
+    ws = {c for c in candidates if ws_alt.match(c, 0) == 1}
+    bare = {c for c in candidates if bare_alt.match(c, 0) == 1}
+    excl = set(candidates) - bare  # separators: what ends a bare word
     where = (LEX, "<module>", mod.assigns("expr")[-1])
-    ctx.check(set(excl) == set(ws) | {'"', "'"}, "R45.2", where, f"CharsNotIn({excl!r}) vs Word({ws!r}) + quotes", "bare words and separators/quotes do not partition the characters: some character is in no token class or in two",
-              desc="lexer classes partition")
+    both = sorted(ws & bare)
+    neither = sorted(set(candidates) - ws - bare - {'"', "'"})
+    quote_in_class = sorted((ws | bare) & {'"', "'"})
+    ctx.check(not both and not neither and not quote_in_class, "R45.2", where, "whitespace class, bare-word class and the quote characters partition the characters",
+              f"bare words and separators/quotes do not partition the characters: in both classes {both!r}, in no class {neither!r}, quote characters inside a class {quote_in_class!r}",
+              desc=f"lexer classes partition ({ws_alt.kind} whitespace {sorted(ws)!r}, {bare_alt.kind} bare words)")
     # which characters make quote() add quotes?  (semantic: interpret quote on 'a<c>b' for every candidate character)
-    candidates = [chr(i) for i in range(0, 128)] + ["\u00a0", "\u2003", "\u00e9", "\u4e2d"]
     trig = {c for c in candidates if run("quote", f"a{c}b") != f"a{c}b"}
-    ctx.cells += len(candidates)
-    ctx.check(trig == set(excl), "R45.2", (LEX, "quote", q), f"characters that make quote() add quotes == lexer separators {sorted(excl)!r}",
-              f"quote() leaves a string bare although the lexer would split or re-interpret it (or quotes needlessly): differing characters {sorted(trig ^ set(excl))!r}",
-              desc="quote trigger == lexer separators")
+    ctx.cells += 3 * len(candidates)
+    # necessary direction only: every character that ends a bare word must make quote() add quotes.  Quoting more than the lexer needs
+    # (e.g. every str.isspace character) is harmless - the quoted form is one token (R45.3) and is unquoted again (R45.5).
+    ctx.check(excl <= trig, "R45.2", (LEX, "quote", q), "every character that ends a bare word in the lexer makes quote() add quotes",
+              f"quote() leaves a string bare although the lexer would split or re-interpret it: characters the lexer separates on but quote() does not protect {sorted(excl - trig)!r}",
+              desc=f"quote trigger {sorted(trig)!r} covers the lexer separators {sorted(excl)!r}")
+    if trig - excl:
+        ctx.note(f"R45.2: quote() also quotes {sorted(trig - excl)!r}, which the lexer would accept inside a bare word (harmless)")
     ctx.check(run("quote", "") not in ("", None), "R45.2", (LEX, "quote", q), "empty string is quoted", "the empty string must be quoted (a bare empty token does not exist, the argument would vanish)", desc="empty value is quoted")
 
     # ---- R45.3
-    pats = rx.find_call_patterns(mod.assigns("PartialQuotedString")[-1], funcs=("compile",)) if mod.assigns("PartialQuotedString") else []
-    ctx.require(len(pats) == 1, "PartialQuotedString is no longer pyparsing.Regex(re.compile(<literal>, flags))")
-    _, pat, flags = pats[0]
+    ctx.require(quoted_alt.kind == "Regex", "the quoted-string alternative is no longer a pyparsing.Regex over a literal pattern")
+    pat, flags = quoted_alt.pattern, quoted_alt.flags
     lang = rx.nfa_of(pat, flags)
     for label, ref in (("double", r'"[^"]*"'), ("single", r"'[^']*'")):
         only_ref, only_code = rx.compare(rx.nfa_of(ref), lang, exclude=frozenset())
-        ctx.check(only_ref is None, "R45.3", (LEX, "<module>", mod.assigns("PartialQuotedString")[-1]), f"{label}-quoted strings are one token",
+        ctx.check(only_ref is None, "R45.3", (LEX, "<module>", quoted_alt.node), f"{label}-quoted strings are one token",
                   f"quote() can emit {rx.show(only_ref)} which the quoted-string token does not accept as a whole", desc=f"{label}-quoted form accepted")
     SAMPLES = ["", "a", "abc", "a b", " a", "a ", "a\tb", "a\nb", "a\r\nb", "it's", 'say "hi"', "back\\slash", "\\x22", "~q ! ~s", "caf\u00e9 \u4e2d", "a  b   c", "'", '"', "''", '""', "'a'", '"a"', "it's \"x\"", "\"'", "a'b\"c d"]
     bad_form, bad_rt = [], []
@@ -147,15 +282,154 @@ def check(ctx):
     ctx.check(not bad_u, "R45.3", (LEX, "unquote", u), "unquote strips exactly one matching quote pair and nothing else", f"unquote misbehaves: {bad_u[:3]}", desc="unquote strips one matching pair")
     ctx.bounds.append("R45.2/R45.3: quote()/unquote() interpreted on 132 candidate characters and 22+10 representative strings (both-quote-characters strings are the known finding of R45.1)")
 
-    # ---- R45.4
+    # ---- R45.4: execute() interpreted on a token list of every token type (parse_partial and call_strings replaced by stubs)
+    ctx.guard(_execute_rule, ctx)
+
+    # ---- R45.5: the whole path from the command line to the argument types, interpreted
+    ctx.guard(_pipeline_rule, ctx, alts, run, candidates, trig)
+    ctx.expect_instances("R45.1", 1)
+    ctx.expect_instances("R45.2", 3)
+    ctx.expect_instances("R45.3", 5)
+    ctx.expect_instances("R45.4", 1)
+    ctx.expect_instances("R45.5", 2)
+
+
+TYPES = "mitmproxy/types.py"
+
+
+class _Sig:
+    """inspect.Signature of the test command ``def show(*values: str)``, with ``parameters`` as a plain dict (same mapping interface)."""
+
+    def __init__(self):
+        import inspect
+
+        self._sig = inspect.Signature([inspect.Parameter("values", inspect.Parameter.VAR_POSITIONAL, annotation=str)])
+        self.parameters = dict(self._sig.parameters)
+        self.return_annotation = inspect.Signature.empty
+
+    def bind(self, *a, **kw):
+        return self._sig.bind(*a, **kw)
+
+
+def _harness(ctx):
+    """A pyint interpreter for mitmproxy/command.py with `mitmproxy.types` bound to the real module except for CommandTypes (identity
+    argument type for str / Cmd / CmdArgs), a CommandManager record with one command ``show(*values: str)`` and the list of calls it received."""
+    import inspect
+    import types as _types
+
+    from ..pyint import ClassRef
+    from ..pyint import Func
+    from ..pyint import Interp
+    from ..pyint import Rec
+
+    m = ctx.model
+    tm = m.module(TYPES)
+
+    def marker(name):
+        node = tm.get(name)
+        ctx.require(isinstance(node, ast.ClassDef), f"mitmproxy.types.{name} vanished")
+        return ClassRef(tm, node)
+
+    received: list = []
+    ident = Func(m.module(CMD), ast.parse("lambda manager, t, s: s").body[0].value)
+    argtype = Rec("ArgType", parse=ident)
+    it = Interp(m, trusted_modules={"inspect": inspect})
+    it.overrides[(CMD, "mitmproxy")] = _types.SimpleNamespace(types=("$module", tm))
+    it.overrides[(TYPES, "CommandTypes")] = {str: argtype, marker("Cmd"): argtype, marker("CmdArgs"): argtype}
+    mgr = Rec("CommandManager", _impl=(CMD, "CommandManager"), master=None)
+    show = Rec("Command", _impl=(CMD, "Command"), name="show", manager=mgr, func=lambda *a, **kw: received.append(a), signature=_Sig(), help=None)
+    object.__setattr__(mgr, "commands", {"show": show})
+    return it, mgr, received, marker
+
+
+def _execute_rule(ctx):
+    from ..pyint import Raised
+    from ..pyint import Rec
+
     ex = ctx.func(CMD, "CommandManager.execute")
-    gens = [n for n in walk_in_order(ex) if isinstance(n, ast.GeneratorExp)]
-    ok = False
-    for g in gens:
-        if isinstance(g.elt, ast.Call) and last_attr(g.elt.func) == "unquote" and norm(g.elt.args[0]) == "part.value":
-            ifs_ = g.generators[0].ifs
-            ok = len(ifs_) == 1 and norm(ifs_[0]) == "part.type != mitmproxy.types.Space"
-    ctx.check(ok, "R45.4", (CMD, "CommandManager.execute", ex), "unquote(part.value) for part in parts if part.type != Space", "arguments are dropped, merged or passed still quoted", desc="execute unquotes all non-space tokens")
+    it, mgr, _, marker = _harness(ctx)
+    space, cmd, unknown = marker("Space"), marker("Cmd"), marker("Unknown")
+    toks = [("show", cmd), (" ", space), ("'a b'", str), ("  ", space), ('"x"', unknown), ("\t", space), ("plain", str), (" \r\n", space), ('"', str), (" ", space),
+            ("''", str), (" ", space), ("'a\"", str), (" ", space), ("\"'q'\"", str), (" ", space), ("a'b'", unknown), (" ", space)]
+    want = ["show", "a b", "x", "plain", '"', "", "'a\"", "'q'", "a'b'"]
+    calls: list = []
+    object.__setattr__(mgr, "parse_partial", lambda cmdstr: ([Rec("ParseResult", value=v, type=t, valid=True) for v, t in toks], []))
+    object.__setattr__(mgr, "call_strings", lambda name, args: calls.append([name, *args]))
+    try:
+        it.call(CMD, "CommandManager.execute", mgr, "".join(v for v, _ in toks))
+    except Raised as r:
+        calls.append(f"<raises {r.name}>")
+    ctx.cells += len(toks)
+    ctx.check(calls == [want], "R45.4", (CMD, "CommandManager.execute", ex), "execute hands call_strings every non-Space token, unquoted once",
+              f"arguments are dropped, merged or passed still quoted: tokens {[v for v, _ in toks]!r} reach call_strings as {calls!r}, expected {want!r}",
+              desc=f"execute: {len(want)} non-space tokens of every type unquoted once, {len(toks) - len(want)} Space tokens dropped")
+
+
+def _execute(ctx, alts, line):
+    """Interpret CommandManager.execute(line) -> the strings that reach the argument types (identity stub), or '<raises X>'."""
+    import types as _types
+
+    from ..pyint import Raised
+
+    it, mgr, received, _ = _harness(ctx)
+
+    def parse_string(text, parse_all=True, **kw):
+        toks = _tokens(alts, text)
+        if toks is None:
+            raise ValueError("ParseException")  # becomes an interpreted exception
+        return toks
+
+    it.overrides[(LEX, "expr")] = _types.SimpleNamespace(parse_string=parse_string, parseString=parse_string)
+    try:
+        it.call(CMD, "CommandManager.execute", mgr, line)
+    except Raised as r:
+        return f"<raises {r.name}>"
+    if len(received) != 1:
+        return f"<command called {len(received)} times>"
+    return list(received[0])
+
+
+def _pipeline_rule(ctx, alts, run, candidates, trig):
+    for qual in ("CommandManager.execute", "CommandManager.parse_partial", "CommandManager.call_strings", "Command.call", "Command.prepare_args"):
+        ctx.func(CMD, qual)
+    pa = ctx.func(CMD, "parsearg")
+    VALUES = ["a", "abc", "a b", " a", "a ", "  ", "a\tb", "a\nb", "a\r\nb", "it's", 'say "hi"', "back\\slash", "C:\\dir\\x", "~q ! ~s", "caf\u00e9 \u4e2d", "a  b   c", "",
+              "'", '"', "''", '""', "'a'", '"a"', '"hello world"', "'O Brien'", "'a' or 'b'", '"33a64df5"', "x='1'", '"a" b', "true", "-1", "@focus", "a=b,c"]
+    VALUES += [f"a{c}b" for c in candidates if c not in "'\""]
+    # obligation B: only characters str.isspace accepts, none of which makes quote() add quotes
+    BLANK = [c for c in candidates if c.isspace() and c not in trig]
+    BLANKS = BLANK + ([BLANK[0] * 2, BLANK[0] + BLANK[-1]] if BLANK else [])
+    bad_a, bad_b = [], []
+    for group, bad in ((VALUES, bad_a), (BLANKS, bad_b)):
+        for v in group:
+            qv = run("quote", v)
+            ctx.require(isinstance(qv, str), f"quote({v!r}) -> {qv!r}")
+            got = _execute(ctx, alts, f"show {qv} tail")
+            ctx.cells += 1
+            if got != [v, "tail"]:
+                bad.append((v, qv, got))
+    # several arguments on one line: split between the arguments only
+    many = ["plain", "with space", "", "it's", 'say "hi"', "'x'", "t\tab", "end"]
+    got = _execute(ctx, alts, "show " + "  ".join(run("quote", v) for v in many))
+    ctx.cells += 1
+    if got != many:
+        bad_a.append((many, "(one line)", got))
+    chars = sorted({v[1] for v, _, _ in bad_a if isinstance(v, str) and len(v) == 3 and v[0] == "a" and v[2] == "b"})
+    other = [b for b in bad_a if not (isinstance(b[0], str) and len(b[0]) == 3 and b[0][1] in chars and b[0][0] == "a")]
+    why = []
+    if other:
+        why.append("; ".join(f"{v!r} quoted as {qv} arrives as {g!r}" for v, qv, g in other[:4]) + (f" (+{len(other) - 4} more)" if len(other) > 4 else ""))
+    if chars:
+        why.append(f"a<c>b does not arrive as one unchanged argument for c in {chars!r}")
+    ctx.check(not bad_a, "R45.5", (CMD, "parsearg", pa), "cmd quote(v) tail delivers [v, tail] to the argument types",
+              "the interpreted path execute -> parse_partial -> call_strings -> Command.call -> prepare_args -> parsearg changes, splits or drops a quoted argument: " + " | ".join(why),
+              desc=f"{len(VALUES) + 1} command lines: the argument types receive exactly the quoted values", examples=[repr(b) for b in bad_a[:8]])
+    ctx.check(not bad_b, "R45.5", (CMD, "CommandManager.parse_partial", ctx.func(CMD, "CommandManager.parse_partial")), "a bare argument made only of Unicode whitespace reaches the command",
+              f"quote() leaves a value made only of whitespace characters outside its trigger set bare ({[v for v, _, _ in bad_b][:6]!r} ...), but the token does not "
+              f"reach the command as one unchanged argument (typed Space and dropped, or merged with the separating blanks): `show {bad_b[0][1]!r} tail` delivers {bad_b[0][2]!r}" if bad_b else "",
+              desc=f"{len(BLANKS)} whitespace-only bare values reach the argument types", examples=[repr(b) for b in bad_b[:8]])
+    ctx.bounds.append(f"R45.5: {len(VALUES) + len(BLANKS) + 1} command lines interpreted (representative values + a<c>b for {len(candidates)} candidate characters)")
+    ctx.trust("pyparsing tokenisation as modelled (ZeroOrMore/MatchFirst/Word/CharsNotIn/Regex, leave_whitespace); inspect.Signature.bind")
 
 
 MUTANTS = [
@@ -166,5 +440,18 @@ MUTANTS = [
     Mutant("quoted-token-stops-at-space", LEX, '"[^"]*(?:"|$)  # double', '"[^" ]*(?:"|$)  # double', "R45.3"),
     Mutant("unquote-strips-mismatched", LEX, "and x[0] == x[-1]:", "and x[-1] in \"'\\\"\":", "R45.3"),
     Mutant("double-quote-even-if-present", LEX, "    if '\"' not in val:\n        return f'\"{val}\"'", "    if \"'\" in val:\n        return f'\"{val}\"'", "R45.3"),
+    # seed C45a: token classes rewritten as regexes over the Unicode whitespace category (and harmless variants must stay silent: see R45.2)
+    Mutant("lexer-classes-as-unicode-regexes", LEX, '    | pyparsing.Word(" \\r\\n\\t")\n    | pyparsing.CharsNotIn("""\'" \\r\\n\\t""")',
+           '    | pyparsing.Regex(r"\\s+")\n    | pyparsing.Regex(r"""[^\'"\\s]+""")', "R45.2"),
+    Mutant("lexer-whitespace-adds-formfeed", LEX, 'pyparsing.Word(" \\r\\n\\t")\n    | pyparsing.CharsNotIn("""\'" \\r\\n\\t""")',
+           'pyparsing.Word(" \\r\\n\\t\\f")\n    | pyparsing.CharsNotIn("""\'" \\r\\n\\t\\f""")', "R45.2"),
     Mutant("execute-keeps-quotes", CMD, "unquote(part.value) for part in parts if part.type != mitmproxy.types.Space", "part.value for part in parts if part.type != mitmproxy.types.Space", "R45.4"),
+    # R45.5 - seed C45b (a second unquote behind execute) and other edits of the argument on its way to the type
+    Mutant("parsearg-unquotes-again", CMD, "        return t.parse(manager, argtype, spec)", "        return t.parse(manager, argtype, unquote(spec))", "R45.5"),
+    Mutant("execute-unquotes-twice", CMD, "unquote(part.value) for part in parts if part.type != mitmproxy.types.Space", "unquote(unquote(part.value)) for part in parts if part.type != mitmproxy.types.Space", "R45.5"),
+    Mutant("prepare-args-strips", CMD, "parsearg(self.manager, x, convert_to) for x in value", "parsearg(self.manager, x.strip(), convert_to) for x in value", "R45.5"),
+    Mutant("empty-quoted-argument-typed-space", CMD, '            if not part.strip(" \\r\\n\\t"):', '            if not unquote(part).strip(" \\r\\n\\t"):', "R45.5"),
+    # reverse of the F-C45ws fix (98c12efba): Space typed by str.isspace, wider than the lexer's whitespace class
+    Mutant("F-C45ws-reverted", CMD, '            if not part.strip(" \\r\\n\\t"):', "            if part.isspace():", "R45.5"),
+    Mutant("call-strings-drops-empty-arguments", CMD, "        return self.commands[command_name].call(args)", "        return self.commands[command_name].call([a for a in args if a])", "R45.5"),
 ]
